@@ -221,6 +221,12 @@ func (ex *Exec) load(st *State, a *Addr) *smt.Term {
 		return ex.descend(v, a.T, a.Path)
 	case aGlobal:
 		v := ex.heapGet(st, ex.keyGlobal(a.Global))
+		if _, isSlice := a.T.Underlying().(*types.Slice); isSlice && len(a.Path) == 0 {
+			if n, ok := ex.Prog.GlobalSliceLen(a.Global); ok {
+				_, _, ln, cp := ex.sliceParts(v)
+				ex.assume(c.And(c.Eq(ln, c.IntLit(n)), c.Eq(cp, c.IntLit(n))))
+			}
+		}
 		return ex.descend(v, a.T, a.Path)
 	}
 	panic("load: bad addr")
